@@ -23,6 +23,29 @@ open Dask.DelayedUnpack
 
 theorem isEmpty_iff_nil (l : List Nat) : l.isEmpty = true ↔ l = [] := List.isEmpty_iff
 
+section
+variable {V : Type} (S : Sem V) (env : Nat → V)
+
+mutual
+/-- converting the iterators inside an object into the containers they iterate over does not change its value -/
+theorem evalPV_deiter : ∀ p : PV, evalPV S env (deiter p) = evalPV S env p
+  | .lit v => rfl
+  | .del k => rfl
+  | .cont k xs => by simp only [deiter, evalPV, evalPVL_deiter xs]
+  | .iter k xs => by simp only [deiter, evalPV, evalPVL_deiter xs]
+  | .dict kvs => by simp only [deiter, evalPV, evalPVP_deiter kvs]
+  | .slice a b c => by simp only [deiter, evalPV, evalPV_deiter a, evalPV_deiter b, evalPV_deiter c]
+  | .dataclass cls fs => by simp only [deiter, evalPV, evalPVL_deiter fs]
+  | .namedtuple cls fs => by simp only [deiter, evalPV, evalPVL_deiter fs]
+theorem evalPVL_deiter : ∀ xs : List PV, evalPVL S env (deiterL xs) = evalPVL S env xs
+  | [] => rfl
+  | x :: xs => by simp only [deiterL, evalPVL, evalPV_deiter x, evalPVL_deiter xs]
+theorem evalPVP_deiter : ∀ kvs : List (PV × PV), evalPVP S env (deiterP kvs) = evalPVP S env kvs
+  | [] => rfl
+  | (k, v) :: r => by simp only [deiterP, evalPVP, evalPV_deiter k, evalPV_deiter v, evalPVP_deiter r]
+end
+end
+
 set_option linter.unusedSectionVars false in
 section
 variable {V : Type} (S : Sem V) (env : Nat → V)
@@ -42,32 +65,32 @@ theorem unpack_eval : ∀ p : PV, evalTT S env (unpack p).1 = evalPV S env p
   | .cont k xs => by
     simp only [unpack]
     split
-    · rfl
+    · simp only [evalTT, evalPV_deiter, evalPV]
     · rw [eval_rebuild S env hconv, unpackL_eval xs]; rfl
   | .iter k xs => by
     simp only [unpack]
     split
-    · rfl
+    · simp only [evalTT, evalPV_deiter, evalPV]
     · rw [eval_rebuild S env hconv, unpackL_eval xs]; rfl
   | .dict kvs => by
     simp only [unpack]
     split
-    · rfl
+    · simp only [evalTT, evalPV_deiter, evalPV]
     · simp only [evalTT, evalPV, unpackP_eval kvs]
   | .slice a b c => by
     simp only [unpack]
     split
-    · rfl
+    · simp only [evalTT, evalPV_deiter, evalPV]
     · simp only [evalTT, evalPV, unpack_eval a, unpack_eval b, unpack_eval c]
   | .dataclass cls fs => by
     simp only [unpack]
     split
-    · rfl
+    · simp only [evalTT, evalPV_deiter, evalPV]
     · simp only [evalTT, evalPV, unpackL_eval fs]
   | .namedtuple cls fs => by
     simp only [unpack]
     split
-    · rfl
+    · simp only [evalTT, evalPV_deiter, evalPV]
     · simp only [evalTT, evalPV, unpackL_eval fs]
 theorem unpackL_eval : ∀ xs : List PV, evalTTL S env (unpackL xs).1 = evalPVL S env xs
   | [] => rfl
